@@ -316,7 +316,7 @@ def _boundary_spans():
                 B = MAXC - (1 << 17)
             out += [(B - 3, B - 1), (B - 2, B), (B - 1, B + 2), (B, B + 3), (B + 1, B + 2)]
             # one-base children on either side of / across the boundary (a shortened bin set would lose exactly these)
-            out += [(B - 1, B), (B, B + 1), (B - 1, B + 1)]
+            out += [(B - 1, B), (B, B + 1), (B - 1, B + 1), (B - 3, B + 3)]
     out += [((1 << 26) - 2, (1 << 26) + 2), (3 * (1 << 26) - 1, 3 * (1 << 26) + 1), (MAXC - 5, MAXC - 1), (MAXC - 2, MAXC + 3), (MAXC + 1, MAXC + 4)]
     return sorted(set(out))
 
@@ -348,6 +348,16 @@ def check_stored(res, span, kind):
         g = lib.outcome(lambda: GeneInterval([o[1]], parent_or_seq_chunk_parent=par))
         if g[0] == "ok":
             objs["gene"] = g[1]
+    if e - s >= 5:
+        # three blocks handed over in ROTATED order (last block first): the stored bin is that of the genomic span all the same
+        from inscripta.biocantor.gene.transcript import TranscriptInterval
+        from inscripta.biocantor.gene.feature import FeatureInterval
+
+        bl3 = [(e - 1, e), (s, s + 1), (s + 2, s + 3)]
+        for nm_, cls_ in (("transcript-rotated", TranscriptInterval), ("feature-rotated", FeatureInterval)):
+            r3 = lib.outcome(lambda: cls_([b[0] for b in bl3], [b[1] for b in bl3], lib.STRAND["+"], parent_or_seq_chunk_parent=par))
+            if r3[0] == "ok":
+                objs[nm_] = r3[1]
     f = lib.outcome(lib.mk_feat, ((s, e),), "-", par)
     if f[0] == "ok":
         objs["feature"] = f[1]
